@@ -1258,8 +1258,12 @@ class Connection(ConnectionEventsTarget, inspection.Inspectable["Inspector"]):
         """
 
         if self._transaction:
+            # the pool's reset-on-return may be skipped only if closing the
+            # transaction actually emits the rollback, i.e. it was still
+            # active; an inactive transaction (e.g. COMMIT failed) emits
+            # nothing here, so the pool must reset the connection
+            skip_reset = self._transaction.is_active
             self._transaction.close()
-            skip_reset = True
         else:
             skip_reset = False
 
